@@ -391,6 +391,9 @@ func (x *Exec) havocMods(st *State, ms *ModSet) {
 
 // inlineCall symbolically executes the callee body in the caller's state.
 func (x *Exec) inlineCall(st *State, fn *ssa.Function, binds []Val, args []Val, resT *types.Tuple, ghost bool) Val {
+	if ghost && x.p.isGhostFn(fn) && isRecursive(fn) {
+		return x.recApp(st, fn, args, resT)
+	}
 	inlineCounter++
 	sub := &Exec{v: x.v, c: x.c, p: x.p, fn: fn, key: x.p.funcKey(fn), fc: x.p.contracts[x.p.funcKey(fn)],
 		vals: map[ssa.Value]Val{}, prefix: fmt.Sprintf("%s/i%d", x.prefix, inlineCounter), ghost: ghost, depth: x.depth + 1,
@@ -860,4 +863,286 @@ func (x *Exec) heapPureApp(st *State, name string, args []Val, rt types.Type) Va
 	res := sx(f, terms...)
 	c.assume(c.wf(rt, res))
 	return Val{T: rt, S: res}
+}
+
+// ---------------------------------------------------------------------
+// recursive ghost (spec) functions become SMT define-fun-rec
+
+var recCache = map[*ssa.Function]bool{}
+
+func isRecursive(fn *ssa.Function) bool {
+	if v, ok := recCache[fn]; ok {
+		return v
+	}
+	res := false
+	for _, b := range fn.Blocks {
+		for _, in := range b.Instrs {
+			if c, ok := in.(*ssa.Call); ok {
+				if f, ok := c.Call.Value.(*ssa.Function); ok && f == fn {
+					res = true
+				}
+			}
+		}
+	}
+	recCache[fn] = res
+	return res
+}
+
+// ghostReads: the heap regions a ghost function reads (statically).
+func (x *Exec) ghostReads(fn *ssa.Function, seen map[*ssa.Function]bool, out map[string]string) {
+	if seen[fn] {
+		return
+	}
+	seen[fn] = true
+	c := x.c
+	for _, b := range fn.Blocks {
+		for _, in := range b.Instrs {
+			switch in := in.(type) {
+			case *ssa.IndexAddr:
+				if sl, ok := in.X.Type().Underlying().(*types.Slice); ok {
+					r, s := c.elemRegion(sl.Elem())
+					out[r] = s
+				}
+			case *ssa.FieldAddr:
+				if pt, ok := in.X.Type().Underlying().(*types.Pointer); ok {
+					if _, isAlloc := in.X.(*ssa.Alloc); !isAlloc {
+						r, s := c.fieldRegion(pt.Elem(), in.Field)
+						out[r] = s
+					}
+				}
+			case *ssa.Lookup:
+				if _, ok := in.X.Type().Underlying().(*types.Map); ok {
+					h, v, l := c.mapRegions(in.X.Type())
+					out[h], out[v], out[l] = c.regions[h], c.regions[v], c.regions[l]
+				}
+			case *ssa.Call:
+				if f, ok := in.Call.Value.(*ssa.Function); ok && x.p.isGhostFn(f) {
+					x.ghostReads(f, seen, out)
+				}
+			}
+		}
+	}
+}
+
+var recInProgress = map[string]bool{}
+
+// recApp returns the application of the define-fun-rec for a recursive ghost function.
+func (x *Exec) recApp(st *State, fn *ssa.Function, args []Val, resT *types.Tuple) Val {
+	c := x.c
+	if resT.Len() != 1 {
+		panic(unsupported("recursive ghost function with several results"))
+	}
+	name := "rec_" + san(x.p.funcKey(fn))
+	reads := map[string]string{}
+	x.ghostReads(fn, map[*ssa.Function]bool{}, reads)
+	regs := sortedKeys(reads)
+	rt := resT.At(0).Type()
+	if paramSlicesOnly(fn) {
+		return x.recAppParamArrays(st, fn, args, rt, name)
+	}
+	if !c.funDecls["rec:"+name] && !recInProgress[name] {
+		recInProgress[name] = true
+		// translate the body once over bound symbols
+		var params []string
+		var pvals []Val
+		for i, pr := range fn.Params {
+			pn := fmt.Sprintf("rp%d_%s", i, san(pr.Name()))
+			params = append(params, fmt.Sprintf("(%s %s)", pn, c.sortOf(pr.Type())))
+			pvals = append(pvals, Val{T: pr.Type(), S: pn})
+		}
+		bst := &State{guard: "true", cells: map[string]Val{}}
+		for _, r := range regs {
+			rn := "rh_" + r
+			params = append(params, fmt.Sprintf("(%s %s)", rn, reads[r]))
+			bst.cells[r] = Val{S: rn}
+		}
+		bst.cells["$alloc"] = Val{S: "0"}
+		c.inQuant++
+		body := func() string {
+			defer func() { c.inQuant-- }()
+			inlineCounter++
+			sub := &Exec{v: x.v, c: c, p: x.p, fn: fn, key: x.p.funcKey(fn), vals: map[ssa.Value]Val{}, prefix: fmt.Sprintf("rec/i%d", inlineCounter),
+				ghost: true, depth: x.depth + 1, inline: true, props: x.props, parent: x, params: map[string]Val{}, freeVals: map[string]Val{}}
+			for i, pr := range fn.Params {
+				sub.vals[pr] = pvals[i]
+			}
+			sub.entry = bst.clone()
+			sub.recName = name
+			sub.recRegs = regs
+			sub.run(bst.clone())
+			if len(sub.rets) == 0 {
+				panic(unsupported("recursive ghost function never returns"))
+			}
+			var vals []Val
+			var gs []string
+			for _, r := range sub.rets {
+				vals = append(vals, r.results[0])
+				gs = append(gs, r.st.guard)
+			}
+			return c.mergeVals("L:ret", vals, gs).S
+		}()
+		delete(recInProgress, name)
+		c.funDecls["rec:"+name] = true
+		c.decls = append(c.decls, fmt.Sprintf("(define-fun-rec %s (%s) %s %s)", name, strings.Join(params, " "), c.sortOf(rt), body))
+		c.note("recursive specification function " + x.p.funcKey(fn) + " is assumed to terminate (SMT define-fun-rec)")
+	}
+	var as []string
+	for _, a := range args {
+		as = append(as, a.S)
+	}
+	for _, r := range regs {
+		as = append(as, c.region(st, r))
+	}
+	return Val{T: rt, S: sx(name, as...)}
+}
+
+// paramSlicesOnly: the function reads memory only by indexing its own slice
+// parameters (and passes them unchanged to its recursive calls).
+func paramSlicesOnly(fn *ssa.Function) bool {
+	isParam := func(v ssa.Value) bool {
+		for {
+			switch u := v.(type) {
+			case *ssa.Parameter:
+				return true
+			case *ssa.UnOp:
+				a, ok := u.X.(*ssa.Alloc)
+				if !ok || a.Referrers() == nil {
+					return false
+				}
+				var src ssa.Value
+				n := 0
+				for _, r := range *a.Referrers() {
+					if st, ok := r.(*ssa.Store); ok && st.Addr == ssa.Value(a) {
+						n++
+						src = st.Val
+					}
+				}
+				if n != 1 {
+					return false
+				}
+				v = src
+			default:
+				return false
+			}
+		}
+	}
+	for _, b := range fn.Blocks {
+		for _, in := range b.Instrs {
+			switch in := in.(type) {
+			case *ssa.IndexAddr:
+				if _, ok := in.X.Type().Underlying().(*types.Slice); ok && !isParam(in.X) {
+					return false
+				}
+			case *ssa.FieldAddr:
+				if _, isAlloc := in.X.(*ssa.Alloc); !isAlloc {
+					return false
+				}
+			case *ssa.Lookup, *ssa.MapUpdate, *ssa.Slice:
+				return false
+			case *ssa.Call:
+				f, ok := in.Call.Value.(*ssa.Function)
+				if _, isB := in.Call.Value.(*ssa.Builtin); isB {
+					continue
+				}
+				if !ok || f != fn {
+					return false
+				}
+				for i, a := range in.Call.Args {
+					if _, isSl := a.Type().Underlying().(*types.Slice); isSl {
+						if !isParam(a) {
+							return false
+						}
+						// must be the same parameter position
+						p := a
+						for {
+							if u, ok := p.(*ssa.UnOp); ok {
+								al := u.X.(*ssa.Alloc)
+								for _, r := range *al.Referrers() {
+									if st, ok := r.(*ssa.Store); ok && st.Addr == ssa.Value(al) {
+										p = st.Val
+									}
+								}
+								continue
+							}
+							break
+						}
+						if pp, ok := p.(*ssa.Parameter); !ok || fn.Params[i] != pp {
+							return false
+						}
+					}
+				}
+			}
+		}
+	}
+	return true
+}
+
+// recAppParamArrays: define-fun-rec whose slice parameters are passed as
+// (backing array, offset, length) so that writes to other objects do not
+// affect the application.
+func (x *Exec) recAppParamArrays(st *State, fn *ssa.Function, args []Val, rt types.Type, name string) Val {
+	c := x.c
+	if !c.funDecls["rec:"+name] && !recInProgress[name] {
+		recInProgress[name] = true
+		var params []string
+		var pvals []Val
+		bst := &State{guard: "true", cells: map[string]Val{}}
+		bst.cells["$alloc"] = Val{S: "0"}
+		for i, pr := range fn.Params {
+			pn := fmt.Sprintf("rp%d_%s", i, san(pr.Name()))
+			if sl, ok := pr.Type().Underlying().(*types.Slice); ok {
+				r, rs := c.elemRegion(sl.Elem())
+				inner := rs[len("(Array Int ") : len(rs)-1]
+				params = append(params, fmt.Sprintf("(%s_arr %s) (%s_off Int) (%s_len Int)", pn, inner, pn, pn))
+				// the i-th slice parameter lives at reference i+1 of a private heap
+				ref := fmt.Sprint(i + 1)
+				cur, ok := bst.cells[r]
+				base := fmt.Sprintf("((as const %s) ((as const %s) %s))", rs, inner, c.zero(sl.Elem()))
+				if ok {
+					base = cur.S
+				}
+				bst.cells[r] = Val{S: sx("store", base, ref, pn+"_arr")}
+				pvals = append(pvals, Val{T: pr.Type(), S: mkSlice(ref, pn+"_off", pn+"_len", pn+"_len")})
+				continue
+			}
+			params = append(params, fmt.Sprintf("(%s %s)", pn, c.sortOf(pr.Type())))
+			pvals = append(pvals, Val{T: pr.Type(), S: pn})
+		}
+		c.inQuant++
+		body := func() string {
+			defer func() { c.inQuant-- }()
+			inlineCounter++
+			sub := &Exec{v: x.v, c: c, p: x.p, fn: fn, key: x.p.funcKey(fn), vals: map[ssa.Value]Val{}, prefix: fmt.Sprintf("rec/i%d", inlineCounter),
+				ghost: true, depth: x.depth + 1, inline: true, props: x.props, parent: x, params: map[string]Val{}, freeVals: map[string]Val{}}
+			for i, pr := range fn.Params {
+				sub.vals[pr] = pvals[i]
+			}
+			sub.entry = bst.clone()
+			sub.run(bst.clone())
+			if len(sub.rets) == 0 {
+				panic(unsupported("recursive ghost function never returns"))
+			}
+			var vals []Val
+			var gs []string
+			for _, r := range sub.rets {
+				vals = append(vals, r.results[0])
+				gs = append(gs, r.st.guard)
+			}
+			return c.mergeVals("L:ret", vals, gs).S
+		}()
+		delete(recInProgress, name)
+		c.funDecls["rec:"+name] = true
+		c.decls = append(c.decls, fmt.Sprintf("(define-fun-rec %s (%s) %s %s)", name, strings.Join(params, " "), c.sortOf(rt), body))
+		c.note("recursive specification function " + x.p.funcKey(fn) + " is assumed to terminate (SMT define-fun-rec)")
+	}
+	var as []string
+	for i, a := range args {
+		if sl, ok := fn.Params[i].Type().Underlying().(*types.Slice); ok {
+			r, _ := c.elemRegion(sl.Elem())
+			as = append(as, sx("select", c.region(st, r), sRef(a.S)), sOff(a.S), sLen(a.S))
+			continue
+		}
+		as = append(as, a.S)
+	}
+	return Val{T: rt, S: sx(name, as...)}
 }
